@@ -1401,3 +1401,49 @@ def gen_stress(g):
 
 
 PROFILES['stress'] = gen_stress
+
+
+# ---------------------------------------------------------------------------
+# C04: convergence to the closed form
+
+def gen_conv(g):
+    r = g.rng
+    scn, model, chain = base_scenario(
+        g, 'conv', n_target=r.choice([2, 3, 4, 5, 6, 8]),
+        force_worm=True if g.chance(0.25) else False, self_locking=False,
+        data_level=0)
+    mot = scn['elements'][0]
+    msi = model.e[0]
+    k1, R, E, J = rm.rate_constant(model, chain)
+    dlim = rm.motor_dlim(msi)
+    if dlim is not None:
+        lo = min(0.95, max(0.15, dlim * 2.0))
+        D = r.choice([1, 1.0, r.uniform(lo, 1.0), -r.uniform(lo, 1.0), -1])
+    else:
+        D = r.choice([1, 1.0, 0.5, -0.7, 0])       # ignored by the law
+    stall = msi['Tmax'] * E * R
+    TL = stall * r.choice([0.0, r.uniform(-1, 1), r.uniform(-0.9, 0.9),
+                           r.uniform(1.0, 2.5), -r.uniform(1.0, 2.5)])
+    scn['load'] = {'terms': [{'t': 'const', 'c': TL}], 'unit': g.unit('Torque')}
+    w_out = msi['w0'] / R
+    scn['init'] = {'position': g.q('AngularPosition', r.uniform(-3, 3)),
+                   'speed': g.q('AngularSpeed', r.choice(
+                       [0.0, r.uniform(-1.5, 1.5) * w_out])),
+                   'pwm': D}
+    via_rule = g.chance(0.3)
+    scn['conv'] = {'kdts': [0.2, 0.1, 0.05, 0.025] +
+                   ([0.0125, 0.00625] if g.cfg.get('fine') else []),
+                   'horizon': r.choice([3, 4, 5, 6]),
+                   'split': g.chance(0.4), 'via_rule': via_rule,
+                   'split_at': [r.uniform(0.1, 0.9), r.uniform(0.1, 0.9)],
+                   'unit': g.unit('TimeInterval')}
+    if via_rule:
+        scn['rules'] = [{'kind': 'ConstantPWM', 'start': g.q('Time', 0.0),
+                         'duration': g.q('TimeInterval', 1e9),
+                         'value': D}]
+        scn['init']['pwm'] = r.choice([None, 1, D])
+    scn['schedule'] = []
+    return scn
+
+
+PROFILES['conv'] = gen_conv
